@@ -41,6 +41,8 @@ def judge(ctx, sc, o, cond, code, tid, later, sender=False):
     if code == "abandon":
         ctx.prop("abandon_goes_idle", sc.rig.idle, lambda: {"sig": f"{name}/abandon: step {sc.rig.h.step}"})
         ctx.prop("abandon_emits_nothing", len(o.pdus) == 0, lambda: {"sig": f"{name}/abandon: {o.kinds()}"})
+        ctx.prop("abandon_leaves_nothing_pending", not sc.rig.h.packets_ready,
+                 lambda: {"sig": f"{name}/abandon: idle handler claims pending PDUs"})
         ctx.prop("abandon_no_indication", len(fin) == 0, lambda: {"sig": f"{name}/abandon: finished indication"})
         for o2 in later(2):
             ctx.prop("abandon_stays_silent", o2.exc is None and not o2.pdus and not o2.ind and not o2.faults,
@@ -255,6 +257,9 @@ def h_open(ctx, N, mode, prefix):
                 ctx.prop("abandon_goes_idle", sc.rig.idle and not any(e[0] == "finished" for e in o.ind)
                          and not any(rigs.pdu_kind(p) == "FIN" for p in o.pdus),
                          lambda: {"sig": f"open: {f[2].name}/abandon not silent"})
+                # ... but once they are retrieved (the rig drains the queue) the idle handler has nothing pending
+                ctx.prop("abandon_leaves_nothing_pending", not sc.rig.h.packets_ready,
+                         lambda: {"sig": f"open: {f[2].name}/abandon: idle handler claims pending PDUs"})
         for e in o.ind:
             ctx.prop("indication_has_transaction_id", e[1] is not None,
                      lambda: {"sig": f"open: {e[0]} indication without transaction id"})
